@@ -24,7 +24,7 @@ from vmon.oracle import woff2 as OW2
 
 PROPERTY = "C04"
 LEVEL = "exploration"
-RULE = ("a case is one font (corpus file, TTC, or a fontBuilder font built to stress one derived field) saved under "
+RULE = ("a case is one font (corpus file, TTC, a fontBuilder font built to stress one derived field, a binary with corrupted derived fields, or a collection with checksum-colliding members) saved under "
         "several configurations; every save is judged by the TTFont.save/TTCollection.save post-condition; a "
         "(font, flavor, reorderTables, recalcBBoxes, glyf padding, flavor-data, sharing) combination is distinct, and "
         "non-trivial when the written file had at least one table and was parsed and judged by the independent reader")
@@ -41,7 +41,7 @@ ASSUMPTIONS = [
 REQUIRED_MONITORS = ["TTFont.save", "TTCollection.save"]
 CASE_TIMEOUT = 300
 MANIFEST = {
-    "text": "Exploration: post-condition monitors on TTFont.save and TTCollection.save hand every file written during the run (path or stream) to container parsers written from the OpenType, WOFF and WOFF2 specifications (directory order, search fields, alignment, zero padding, overlap, table and whole-file checksums, WOFF origChecksum/totalSfntSize/lengths, WOFF2 base128 directory, transformLength, glyf/loca and hmtx transform reconstruction) and recompute, from the saved bytes, every derived field the library recomputed under the active options (glyph and font bounding boxes with exact rational component transforms, maxp profile including recursive component depth, hhea/vhea extents and metric counts, loca format and offsets, glyph counts, CFF FontBBox against HarfBuzz outlines). Workload: all corpus fonts and TTCs plus fontBuilder fonts built to stress each derived field (nesting depth 6, scaled/rotated/point-matched components, empty and off-curve-only glyphs, negative side bearings, zero advances, single-glyph fonts, glyf size straddling 0x20000, WOFF2 triplet boundaries, table counts around powers of two) x flavor x reorderTables x recalcBBoxes x glyf padding x WOFF metadata/private blocks x WOFF2 transform sets x TTC sharing, with stale derived values scribbled into memory before each recalculating save; subset, instancer, merge, varLib, ttx and woff2.compress workloads save through the same monitor. Table content is compared across the three flavours decoded independently. Tests cannot settle this: they check header arithmetic on a handful of fixed fonts and never recompute derived fields for every output.",
+    "text": "Exploration: post-condition monitors on TTFont.save and TTCollection.save hand every file written during the run (path or stream) to container parsers written from the OpenType, WOFF and WOFF2 specifications (directory order, search fields, alignment, zero padding, overlap, table and whole-file checksums, WOFF origChecksum/totalSfntSize/lengths, WOFF2 base128 directory, transformLength, glyf/loca and hmtx transform reconstruction) and recompute, from the saved bytes, every derived field the library recomputed under the active options (glyph and font bounding boxes with exact rational component transforms, maxp profile including recursive component depth, hhea/vhea extents and metric counts, loca format and offsets, glyph counts, CFF FontBBox against HarfBuzz outlines). Workload: all corpus fonts and TTCs plus fontBuilder fonts built to stress each derived field (nesting depth 6, scaled/rotated/point-matched components, empty and off-curve-only glyphs, negative side bearings, zero advances, single-glyph fonts, glyf size straddling 0x20000, WOFF2 triplet boundaries, table counts around powers of two) x flavor x reorderTables x recalcBBoxes x glyf padding x WOFF metadata/private blocks x WOFF2 transform sets x TTC sharing, with stale derived values scribbled into memory before each recalculating save, and separately corrupted in the binary (glyph boxes, head bbox, maxp, hhea/vhea) of fonts that are then opened lazily, have varying subsets of tables touched and are saved with recalcBBoxes=True; collections include members whose same-tag tables have equal length and equal checksum but different content (permuted glyph order, swapped aligned words), each member being compared with a standalone save; subset, instancer, merge, varLib, ttx and woff2.compress workloads save through the same monitor. Table content is compared across the three flavours decoded independently. Tests cannot settle this: they check header arithmetic on a handful of fixed fonts and never recompute derived fields for every output.",
     "note": "Trusted base: the spec-written oracles in vmon/oracle (sfnt, woff, woff2, derived), zlib, brotli, HarfBuzz for CFF outlines. Equality is demanded only for tables loaded before save() began and (for boxes/maxp/hhea/vhea) recalcBBoxes=True; transformed-composite boxes +-1 unit; maxp instruction fields, DSIG signatures, TTC checkSumAdjustment and WOFF2-internal checkSumAdjustment are out of reach or unspecified and not asserted.",
     "technique": "post-condition monitors on the real save functions; spec-written independent container parsers; independent recomputation of derived fields with exact rational arithmetic; cross-flavour differential decoding",
     "design_ref": "DESIGN.md §4 C04",
